@@ -2,13 +2,15 @@ import IwModel.Lemmas.JsonText
 import IwModel.Lemmas.JsonPrintCst
 import IwModel.Lemmas.JsonWitness
 import IwModel.Lemmas.JsonFtoa
+import IwModel.Lemmas.StrtodArith
 /-! # C13 — JSON text is parsed to the value it denotes and printed text parses back
 
 Property theorems only; definitions of the specification side (`Cst`, `decode`, …) are in
 `IwModel/Model/JsonSpec.lean`, helper lemmas in `IwModel/Lemmas/Json*.lean`.
-Doubles are opaque: `sd` is the model's stand-in for `iwstrtod`, `D` the double a number token denotes. -/
+In the first group doubles are opaque: `sd` is a stand-in for `iwstrtod`, `D` the double a number token denotes; the section
+`iwstrtod inside the model` instantiates them with the soft-float model `iwstrtodModel` / `strtodD`. -/
 namespace IwModel.C13
-open IwModel IwModel.Json
+open IwModel IwModel.Json IwModel.SoftF64
 
 /-- **Two-pass unescape.** Whatever the buffer size `dlen` and start offset `d`, one call of
     `_jbl_unescape_json_string` returns the offset advanced by the length of the decoded content, has stored
@@ -56,7 +58,7 @@ theorem parse_render_partial (sd : SD) (D : Bytes → Nat) (hsd : SdSpec sd D) (
   have hneed := need_le c
   have hlen : c.need ≤ 2 * (pre ++ c.text ++ post).length + 4 := by
     simp only [List.length_append]; omega
-  rw [parseValue_cst sd D hsd c _ 0 pre post hv (by omega) hlen (wsOk_sepOk _ hpre) (delim_ws _ hpost)]
+  rw [parseValue_cst sd D _ hsd.on c _ 0 pre post hv c.toksOk_true (by omega) hlen (wsOk_sepOk _ hpre) (delim_ws _ hpost)]
 
 /-- **Printed strings read back.** What `_jbl_write_json_string` writes for any byte string (with the CODEPOINTS flag:
     any string it accepts, i.e. well-formed UTF-8) is read back by the unescaper as exactly that byte string;
@@ -127,6 +129,125 @@ theorem parse_print_ftoa_partial (sd : SD) (D : Bytes → Nat) (hsd : SdSpec sd 
     parse sd t = .ok (some (reval D ftoaCst v)) :=
   parse_print_partial sd D hsd ftoa ftoaCst ftoa_fmtSpec pf v t hp hd h
 
+/-! ### `iwstrtod` inside the model (soft-float binary64, `pow(10, e)` of libm tabulated) -/
+
+/-- **Soft-float rounding is IEEE round-to-nearest-even.** All arithmetic of the `iwstrtod` model goes through
+    `roundMag n d` (the double nearest to `n / d` units of 2^-1074).  (1) it depends on the rational value only;
+    (2) it is the identity on representable values; (3) it is monotone; (4) faithful: no finite double lies strictly
+    between the exact value and the result; (5) in the binade it lands in, the significand chosen is within one half of
+    the exact quotient (ties: the even one, by definition of `rne`); (6) finite non-negative doubles are ordered like
+    their bit patterns.  (4)+(5)+(6) say the result is a nearest double. -/
+theorem softf64_rounding :
+    (∀ n d c, 0 < d → 0 < c → roundMag (n * c) (d * c) = roundMag n d) ∧
+    (∀ a c, IsFin a → 0 < c → roundMag (mag a * c) c = a) ∧
+    (∀ n d n' d', 0 < d → 0 < d' → n * d' ≤ n' * d → roundMag n d ≤ roundMag n' d') ∧
+    (∀ n d c, 0 < d → IsFin c → (mag c * d ≤ n → c ≤ roundMag n d) ∧ (n ≤ mag c * d → roundMag n d ≤ c)) ∧
+    (∀ n d, 0 < d →
+        2 * (rne n (d * 2 ^ rexp n d) * (d * 2 ^ rexp n d)) ≤ 2 * n + d * 2 ^ rexp n d ∧
+        2 * n ≤ 2 * (rne n (d * 2 ^ rexp n d) * (d * 2 ^ rexp n d)) + d * 2 ^ rexp n d) ∧
+    (∀ a b, IsFin b → a < b → mag a < mag b) :=
+  ⟨roundMag_scale, roundMag_repr, roundMag_mono, roundMag_faithful, roundMag_near, mag_strictMono⟩
+
+/-- **(a) `iwstrtod` scans exactly a number token.** On every valid JSON number token followed by a delimiter the model
+    of `iwstrtod` stops exactly behind the token, whatever its length or magnitude; bits and range flag are functions of
+    the token alone.  If the written exponent is within -307…308 (or absent) no range error is reported: the model
+    meets the contract `SdSpecOn` that the parser theorems assume of their `sd` parameter. -/
+theorem strtod_token_contract :
+    (∀ (t : NumTok) (rest : Bytes), t.valid = true → delim rest = true →
+        iwstrtodModel (t.text ++ rest) = (t.sdRes.1, t.text.length, t.sdRes.2)) ∧
+    SdSpecOn NumTok.expInRange iwstrtodModel strtodD :=
+  ⟨strtod_token, strtod_sdSpecOn⟩
+
+/-- **(b) Integers below 2^53 are read exactly.** White space, optional `-`, a run of decimal digits with value below
+    2^53 (any number of leading zeros), then anything that is not a digit, `.`, `e`, `E`: the result is exactly that
+    integer (`mag` of the result is the value in units of 2^-1074), sign bit from the `-`, all bytes consumed, no range
+    error.  Every text with at most 15 digits after its leading zeros qualifies. -/
+theorem strtod_int_exact (ws : Bytes) (neg : Bool) (ds rest : Bytes) (hws : ws.all isSpaceC = true) (hne : ds ≠ [])
+    (hds : ds.all isDigitC = true)
+    (hr : isDigitC (chd rest) = false ∧ chd rest ≠ 46 ∧ chd rest ≠ 69 ∧ chd rest ≠ 101)
+    (hv : digitsVal 10 ds < 2 ^ 53) :
+    iwstrtodModel (ws ++ signText neg ++ ds ++ rest) =
+      (signBit neg + ofNat (digitsVal 10 ds), ws.length + (signText neg).length + ds.length, false) ∧
+    IsFin (ofNat (digitsVal 10 ds)) ∧ mag (ofNat (digitsVal 10 ds)) = digitsVal 10 ds * SoftF64.unit :=
+  ⟨int_text_exact ws neg ds rest hws hne hds hr hv, ofNat_fin _ hv, mag_ofNat _ hv⟩
+
+/-- at most 15 significant digits, any number of leading zeros: the value is below 2^53 -/
+theorem strtod_int15 (k : Nat) (sig : Bytes) (hds : sig.all isDigitC = true) (hl : sig.length ≤ 15) :
+    digitsVal 10 (List.replicate k 48 ++ sig) < 2 ^ 53 := by
+  rw [digitsVal_zeros]
+  have h1 := digitsVal_lt_pow sig hds
+  have h2 : 10 ^ sig.length ≤ 10 ^ 15 := Nat.pow_le_pow_right (by decide) hl
+  have h3 : (10 : Nat) ^ 15 < 2 ^ 53 := by decide
+  omega
+
+/-- **(c) Sign symmetry.** For a text that starts (after white space) with a digit or `.`: putting `-` in front flips
+    the sign bit of the result, consumes one byte more (none if none was consumed) and leaves the range flag — unless the
+    unsigned text ends in one of the two special cases near `DBL_MIN`, which `iwstrtod` applies to positive values only
+    (then the unsigned result is `0.0` with a range error, or `DBL_MIN`).  `inf * 0` is the default NaN for both. -/
+theorem strtod_sign_symmetry (ws body : Bytes) (hws : ws.all isSpaceC = true)
+    (hb : isDigitC (chd body) = true ∨ chd body = 46) :
+    iwstrtodModel (ws ++ 45 :: body) = flipRes (iwstrtodModel (ws ++ body)) ∨ SpecialRes (iwstrtodModel (ws ++ body)) :=
+  strtod_sign ws body hws hb
+
+/-- the exception in `strtod_sign_symmetry` is real: `2.2250738585072011e-308` is read as `0.0` with a range error,
+    `-2.2250738585072011e-308` as the negative of the largest subnormal, without -/
+theorem strtod_sign_exception :
+    iwstrtodModel [50, 46, 50, 50, 53, 48, 55, 51, 56, 53, 56, 53, 48, 55, 50, 48, 49, 49, 101, 45, 51, 48, 56] =
+      (0, 23, true) ∧
+    iwstrtodModel [45, 50, 46, 50, 50, 53, 48, 55, 51, 56, 53, 56, 53, 48, 55, 50, 48, 49, 49, 101, 45, 51, 48, 56] =
+      (0x800fffffffffffff, 24, false) := by decide +kernel
+
+/-- **(d, partial) Monotone in the digits read so far.** Two digit strings with a common tail `q`, whose heads `p`,
+    `p'` have values below 2^53: if `p ≤ p'` as numbers then the digit loop yields `≤` doubles for `p ++ q`, `p' ++ q`,
+    however long `q` is (also when the result overflows to infinity).  Not proved: monotonicity in the tail, an error
+    bound for the whole conversion (each operation is correctly rounded by `softf64_rounding`; the composition is up to
+    a few ulp off, see `strtod_f8_witnesses`). -/
+theorem strtod_int_monotone_partial (p p' q : Bytes) (hp : p ≠ []) (hp' : p' ≠ []) (hd : p.all isDigitC = true)
+    (hd' : p'.all isDigitC = true) (hq : q.all isDigitC = true) (hv' : digitsVal 10 p' < 2 ^ 53)
+    (hle : digitsVal 10 p ≤ digitsVal 10 p') : intLoop (p ++ q) ≤ intLoop (p' ++ q) := by
+  rw [intLoop_append p q hp, intLoop_append p' q hp', intLoop_exact p hd (by omega), intLoop_exact p' hd' hv']
+  exact intFold_mono q _ _ (ofNat_fin _ (by omega)).pos (ofNat_fin _ hv').pos hq (ofNat_mono _ _ hle)
+
+/-- **(e) Finding F8 inside the model.** On `0.3`, `0.7` and `1e23` the model of `iwstrtod` returns the double one
+    above the correctly rounded one: `nearestDouble` is the rounding of the exact rational, and `RoundsToLower lo x`
+    checks by exact integer arithmetic that `x` lies strictly between the adjacent doubles `lo`, `lo + 1`, closer to
+    `lo` (`0.3`, `0.7`) or exactly half way with `lo` even (`1e23`).  The C code returns the same bits (correspondence run), so these are defects of `iwstrtod`, not of the model. -/
+theorem strtod_f8_witnesses :
+    (iwstrtodModel [48, 46, 51] = (0x3fd3333333333334, 3, false) ∧ nearestDouble 3 10 = 0x3fd3333333333333 ∧
+      RoundsToLower 0x3fd3333333333333 3 10) ∧
+    (iwstrtodModel [48, 46, 55] = (0x3fe6666666666667, 3, false) ∧ nearestDouble 7 10 = 0x3fe6666666666666 ∧
+      RoundsToLower 0x3fe6666666666666 7 10) ∧
+    (iwstrtodModel [49, 101, 50, 51] = (0x44b52d02c7e14af7, 4, false) ∧ nearestDouble (10 ^ 23) 1 = 0x44b52d02c7e14af6 ∧
+      RoundsToLower 0x44b52d02c7e14af6 (10 ^ 23) 1) := by decide +kernel
+
+/-- **Parsing valid JSON with `iwstrtod` in the model (partial: keys without U+0000, F9; exponents within -307…308).**
+    `parse_render_partial` with the `sd` parameter instantiated by the model of `iwstrtod`: no assumption about the
+    double conversion is left; every number token with fraction/exponent denotes `strtodD token`, the bits the
+    soft-float model computes.  Tokens whose written exponent is outside -307…308 are excluded: there `pow` under- or
+    overflows, or the `DBL_MIN` special case reports a range error, and the parser rejects the text. -/
+theorem parse_render_strtod_partial (c : Cst) (pre post : Bytes) (hv : c.valid = true)
+    (hk : c.toksOk NumTok.expInRange = true) (hdep : c.depth ≤ maxNesting) (hpre : wsOk pre = true)
+    (hpost : wsOk post = true) :
+    parse iwstrtodModel (pre ++ c.text ++ post) = .ok (some (c.value strtodD)) := by
+  have hnz : nz (pre ++ c.text ++ post) := by
+    rw [nz_append, nz_append]; exact ⟨⟨nz_ws _ hpre, nz_cst c hv⟩, nz_ws _ hpost⟩
+  obtain ⟨b, r, hb, hlt⟩ := text_head_ascii c pre post hpre
+  unfold parse
+  simp only [cstr_nz _ hnz]
+  rw [hb, skipBom_ascii b r hlt, ← hb]
+  have hneed := need_le c
+  have hlen : c.need ≤ 2 * (pre ++ c.text ++ post).length + 4 := by
+    simp only [List.length_append]; omega
+  rw [parseValue_cst iwstrtodModel strtodD _ strtod_sdSpecOn c _ 0 pre post hv hk (by omega) hlen (wsOk_sepOk _ hpre)
+    (delim_ws _ hpost)]
+
+/-- side conditions on the regenerated libm table and literals: `pow(10, e)` is tabulated for -323…308, every entry is
+    a finite positive double, `10.0` and `±1.0` are what the soft float computes from the integers -/
+theorem generated_pow10_ok :
+    Gen.Pow10.pow10Lo = 323 ∧ Gen.Pow10.pow10Hi = 308 ∧ Gen.Pow10.pow10Tab.length = 632 ∧
+    Gen.Pow10.pow10Tab.all (fun x => decide (x < infBits)) = true ∧ Gen.Pow10.litTen = ofNat 10 :=
+  ⟨pow10_range.1, pow10_range.2.1, pow10_range.2.2, pow10Tab_fin, litTen_eq⟩
+
 /-- **F9 witness.** The model exhibits the open finding: the key `a\u0000b` is read as `a`. -/
 theorem key_nul_truncated (sd : SD) :
     parse sd [123, 34, 97, 92, 117, 48, 48, 48, 48, 98, 34, 58, 49, 125] = .ok (some (.obj [([97], .int 1)])) := by
@@ -160,6 +281,15 @@ example : exampleCst.value (fun _ => 0) = .arr [.str [97, 10, 195, 169, 240, 159
 
 /-! the assumptions about the opaque double conversions are satisfiable, and so are the hypotheses of the print theorems -/
 example : SdSpec scanSd (fun _ => 0) := scanSd_spec
+
+/-! `1.5e-10` is a valid token with an exponent in range; `[1.5e-10]` satisfies the hypotheses of `parse_render_strtod_partial` -/
+def exampleTok : NumTok := ⟨false, 1, some [53], some (101, [45], [49, 48])⟩
+
+example : exampleTok.valid = true ∧ exampleTok.expInRange = true := by decide
+
+example : (Cst.arr [] (.cons [] (.dbl exampleTok) [] .nil)).toksOk NumTok.expInRange = true := by decide
+
+example : [49, 50, 51].all isDigitC = true ∧ digitsVal 10 [49, 50, 51] < 2 ^ 53 := by decide
 
 example : FmtSpec (fun _ => [48]) (fun _ => .int false 0) := by
   intro b _; simp [Cst.text, signText, digits_lt10, Cst.valid, Cst.depth]
